@@ -37,6 +37,17 @@ theorem stored_signed (ops : List (Op Hash Sig)) (id : LogId) (s : Sth Hash Sig)
   obtain ⟨hk, idh, hid, hf, hv, _⟩ := parse_ok env hp
   exact ⟨hk, ⟨idh, hid, hf⟩, hv⟩
 
+/-- The same from any table whose rows parse (a pre-existing database written under the same
+    configuration), not only from the empty table. -/
+theorem stored_signed_from (db0 : Db Hash Sig) (h0 : Inv env db0) (ops : List (Op Hash Sig)) (id : LogId) (s : Sth Hash Sig)
+    (h : run env db0 ops id = some s) :
+    env.known id = true ∧
+    (∃ idh, env.idOf id = some idh ∧ (s.idField = none ∨ s.idField = some idh)) ∧
+    env.verify id s.ts s.size s.root s.sig = true := by
+  obtain ⟨p, hp⟩ := inv_run env ops db0 h0 id s h
+  obtain ⟨hk, idh, hid, hf, hv, _⟩ := parse_ok env hp
+  exact ⟨hk, ⟨idh, hid, hf⟩, hv⟩
+
 /-- **cosigns only signed STHs.** In any history, every reply that carries a cosignature carries it
     over an STH with a valid signature of the configured log that the call addressed; and after an
     `update` answered that way, the row of that log holds exactly the submitted raw STH. -/
@@ -362,7 +373,11 @@ structure Scheme (SK PK Msg S : Type) where
 section
 variable {Hash Sig SK PK Msg S : Type} [DecidableEq Hash]
 
-/-- **cosig_verifies.** If the witness cosigns by signing an encoding `enc` of the STH it returns
+/-- **cosig_verifies** (relative to the primitive and to the hypothesis `henv` that `signSTH` signs
+    `enc` of the very STH it returns — what the theorem adds is that *every* reply of *every* history
+    pairs the cosignature with that STH, for `GetSTH` as for `Update`; that `enc` is the real
+    `tls.Marshal(SignedTreeHead)` is the `cosin` correspondence + `cosigInput_inj` below).
+    If the witness cosigns by signing an encoding `enc` of the STH it returns
     with its key `wk`, then in every history every cosignature verifies under the witness' public key
     over (the encoding of) exactly the STH it accompanies. -/
 theorem cosig_verifies (sch : Scheme SK PK Msg S) (wk : SK) (enc : Sth Hash Sig → Msg)
@@ -387,6 +402,45 @@ theorem cosig_verifies (sch : Scheme SK PK Msg S) (wk : SK) (enc : Sth Hash Sig 
       exact hc
   rw [henv s c key]
   exact sch.correct wk (enc s)
+
+/-! ### what is signed: `tls.Marshal(SignedTreeHead)` -/
+
+theorem beEnc_inj (w a b : Nat) (ha : a < 256 ^ w) (hb : b < 256 ^ w) (h : beEnc w a = beEnc w b) : a = b := by
+  have := congrArg beDec h
+  rwa [beDec_beEnc w a ha, beDec_beEnc w b hb] at this
+
+/-- **The signed bytes determine the STH.** `cosigInput` (the layout of `tls.Marshal(ct.SignedTreeHead)`,
+    compared with the real bytes on every run) is injective on well-formed heads: one cosignature cannot
+    be "over" two different (size, timestamp, root, log signature, log ID). With `cosig_verifies`
+    instantiated at `enc s := cosigInput …` this is what "verifies over the STH it accompanies" means at
+    byte level; the tie of `cosigInput` to the Go encoder is by correspondence, not by proof. -/
+theorem cosigInput_inj (size ts size' ts' ha sa ha' sa' : Nat) (root root' sig sig' lid lid' : Bytes)
+    (h1 : size < 2 ^ 64) (h1' : size' < 2 ^ 64) (h2 : ts < 2 ^ 64) (h2' : ts' < 2 ^ 64)
+    (hr : root.length = 32) (hr' : root'.length = 32)
+    (h3 : ha < 256) (h3' : ha' < 256) (h4 : sa < 256) (h4' : sa' < 256)
+    (hs : sig.length < 2 ^ 16) (hs' : sig'.length < 2 ^ 16)
+    (h : cosigInput size ts root ha sa sig lid = cosigInput size' ts' root' ha' sa' sig' lid') :
+    size = size' ∧ ts = ts' ∧ root = root' ∧ ha = ha' ∧ sa = sa' ∧ sig = sig' ∧ lid = lid' := by
+  unfold cosigInput at h
+  simp only [List.append_assoc, List.cons_append, List.nil_append] at h
+  obtain ⟨e1, h⟩ := List.append_inj h (by simp [beEnc_length])
+  obtain ⟨e2, h⟩ := List.append_inj h (by simp [beEnc_length])
+  obtain ⟨e3, h⟩ := List.append_inj h (by rw [hr, hr'])
+  simp only [List.cons.injEq] at h
+  obtain ⟨e4, e5, h⟩ := h
+  obtain ⟨e6, h⟩ := List.append_inj h (by simp [beEnc_length])
+  have hl : sig.length = sig'.length := beEnc_inj 2 _ _ (by simpa using hs) (by simpa using hs') e6
+  obtain ⟨e7, e8⟩ := List.append_inj h hl
+  have u8 : ∀ a b : Nat, a < 256 → b < 256 → UInt8.ofNat a = UInt8.ofNat b → a = b := by
+    intro a b ha hb hab
+    have := congrArg UInt8.toNat hab
+    simp only [UInt8.toNat_ofNat'] at this
+    omega
+  exact ⟨beEnc_inj 8 _ _ (by simpa using h1) (by simpa using h1') e1,
+    beEnc_inj 8 _ _ (by simpa using h2) (by simpa using h2') e2, e3, u8 _ _ h3 h3' e4, u8 _ _ h4 h4' e5, e7, e8⟩
+
+example : cosigInput 1 2 (List.replicate 32 0xaa) 4 3 [1, 2, 3] (List.replicate 32 0xbb) =
+    beEnc 8 1 ++ beEnc 8 2 ++ List.replicate 32 0xaa ++ [4, 3, 0, 3, 1, 2, 3] ++ List.replicate 32 0xbb := by decide
 
 end
 
